@@ -348,6 +348,39 @@ func runC18Case(tier string, seed uint64, idx int, keepDir string) *CaseResult {
 	for _, o := range ovs {
 		lineArgs = append(lineArgs, o.Key+"="+fmtG(o.Value))
 	}
+	// third mode (12 % of the non-rejection cases): the override names a shipped crop file that no crop of the run reads;
+	// editing a file that is never read changes nothing, so the run must equal the run without overrides. Mostly with the
+	// classic parameter format, where file names carry no extension (PARAM.WR is then a prefix of PARAM.WRA / PARAM.WRC).
+	unused := ""
+	if !reject && r.Bool(0.12) {
+		classic := r.Bool(0.7)
+		usedFiles := map[string]bool{}
+		for _, e := range sc.Rotation {
+			usedFiles[cropParamFileName(e.Crop, e.Variety, !classic)] = true
+		}
+		var cands, pref []string
+		for _, c := range c13CropFiles {
+			n := cropParamFileName(c[0], c[1], !classic)
+			if usedFiles[n] {
+				continue
+			}
+			cands = append(cands, n)
+			for u := range usedFiles {
+				if strings.HasPrefix(u, n) || strings.HasPrefix(n, u) {
+					pref = append(pref, n) // a name that begins like (or extends) the name of a file the run does read
+				}
+			}
+		}
+		if len(pref) > 0 && r.Bool(0.8) {
+			unused = pref[r.Intn(len(pref))]
+		} else if len(cands) > 0 {
+			unused = cands[r.Intn(len(cands))]
+		}
+		if unused != "" {
+			sc.CropParamYml = !classic
+			lineArgs = []string{"CropFile=" + unused, "c_MAXAMAX=" + fmtG(roundSig(r.Uniform(20, 60))), "c_YIFAK=" + fmtG(roundSig(r.Uniform(0.3, 0.9)))}
+		}
+	}
 	// A: override on the batch line
 	runA := runPlain(cloneScenario(sc), filepath.Join(root, "A"), func(rr string) []string {
 		mkFolder(rr, "param0", false)
@@ -368,7 +401,18 @@ func runC18Case(tier string, seed uint64, idx int, keepDir string) *CaseResult {
 	violate := func(sig, msg string) {
 		res.Violations = append(res.Violations, Violation{Prop: "C18", Sig: sig, Msg: msg})
 	}
-	if reject {
+	if unused != "" {
+		if ok, why := compareRuns(runA, runC, nil); !ok {
+			violate("override_for_unread_crop_file_changes_run", fmt.Sprintf("the override names %s, which no crop of the run reads (rotation files: the run uses %s), but the run differs from the run without overrides: %s", unused, fileName, why))
+		}
+		res.Cov["pairs_override_for_unread_crop_file"]++
+		for u := range map[string]bool{fileName: true} {
+			if strings.HasPrefix(u, strings.TrimSuffix(unused, ".yml")) {
+				res.Cov["pairs_unread_file_name_is_prefix_of_a_read_one"]++
+			}
+		}
+		res.NonTrivial = runA.Days > 30
+	} else if reject {
 		if ok, why := compareRuns(runA, runC, nil); !ok {
 			violate("rejected_override_changes_run", fmt.Sprintf("out-of-range override %s must be rejected as a whole, but the run differs from the run without overrides: %s", desc, why))
 		}
@@ -414,7 +458,7 @@ func runC18Case(tier string, seed uint64, idx int, keepDir string) *CaseResult {
 
 func init() {
 	caseRunners["C18"] = runC18Case
-	floors := []string{"equivalence_pairs", "rejection_pairs", "pairs_where_override_changes_results"}
+	floors := []string{"equivalence_pairs", "rejection_pairs", "pairs_where_override_changes_results", "pairs_override_for_unread_crop_file"}
 	for _, n := range append(append(append([]string{}, c18BaseParams...), c18StageParams...), c18PartParams...) {
 		floors = append(floors, "param_"+n)
 	}
